@@ -161,6 +161,10 @@ def inspect_groups(defs, faults, seed=0, cap=None):
         else:
             jobs.append((d, f["fault"], f["expect"], ("yaql", "jinja")[(i + seed) % 2], (i // 2 + seed) % 4))
     if cap and len(jobs) > cap:
-        jobs = rng.sample(jobs, cap)
+        # the structural faults (undefined target, reserved name, no start task, self reference) are few and are
+        # always kept; the cap samples the expression faults
+        keep = [j for j in jobs if j[1]["kind"] in ("undefined", "reserved", "nostart", "selfref")]
+        rest = [j for j in jobs if j[1]["kind"] not in ("undefined", "reserved", "nostart", "selfref")]
+        jobs = keep + rng.sample(rest, max(0, min(len(rest), cap - len(keep))))
     outs = pmap(_job, jobs)
     return [o for o in outs if "error" not in o], [o for o in outs if "error" in o]
